@@ -155,6 +155,9 @@ def imread_from_npz(path: Union[Path, list[Path]]) -> darsia.Image:
     npzdata = np.load(path, allow_pickle=True)
     array = npzdata["array"]
     metadata = npzdata["metadata"].item()
+    # Optical images carry their color space in the metadata - restore them as such.
+    if "color_space" in metadata:
+        return darsia.OpticalImage(array, **metadata)
     image = darsia.Image(array, **metadata)
     return image
 
